@@ -199,6 +199,32 @@ def check_obj(o, part, res, recursive=False):
         cov['nontrivial'] += 1
 
 
+def sequences():
+    """Ordered pairs of objects inferred one after the other in a process of their own: the second inference must not be
+    answered from what the first one left behind (classes sharing module and name but not their abc, containers of one
+    type with differently typed items, same carrier with other contents)."""
+    V = O.V
+    S = [('c', 'DupSeqA', (V('1'),)), ('c', 'DupSeqB', (V('1'),)), ('c', 'DupSeqC', (V('1'),)), ('c', 'DupSeqB', (V("'a'"),)),
+         ('c', 'list', (('c', 'list', (V('1'),)), ('c', 'list', (V("'a'"),)))), ('c', 'list', (('c', 'list', (V('1'),)),)), ('c', 'list', (V('1'),)),
+         ('c', 'list', (V("'a'"), V('1'))), ('m', 'dict', ((V('1'), V("'a'")),)), ('m', 'dict', ((V("'a'"), ('c', 'list', (V('1'),))),)),
+         ('c', 'USeq', (V('1'),)), ('c', 'tuple', (V('1'), V("'a'"))), ('c', 'tuple', (V('1'),)), ('new', 'DupA'), ('new', 'DupB'),
+         ('c', 'list', (('new', 'DupA'),)), ('c', 'list', (('new', 'DupB'),))]
+    return [(a, b) for a in S for b in S if a != b]
+
+
+def _work_seq(idx):
+    part = {'cover': {'evaluations': 0, 'states': 0, 'nontrivial': 0, 'recursion_warnings': 0}, 'violations': [], 'hints': set()}
+    a, b = _STATE['seqs'][idx]
+    check_obj(a, part, _STATE['res'][:2])
+    n = len(part['violations'])
+    check_obj(b, part, _STATE['res'][:2])
+    # only what the *second* inference does is attributed to the history; re-label
+    part['violations'] = part['violations'][:n] + [(f'after-inferring:{sig_of(a)}:{s}', f'(after infer_hint({O.osrc(a)}) in the same process) {w}', r)
+                                                   for s, w, r in part['violations'][n:]]
+    part['hints'] = len(part['hints'])
+    return part
+
+
 def _work(shard):
     part = {'cover': {'evaluations': 0, 'states': 0, 'nontrivial': 0, 'recursion_warnings': 0}, 'violations': [], 'hints': set()}
     import sys
@@ -224,17 +250,26 @@ def run(ctx):
         nh += part['hints']
         for v in part['violations']:
             ctx.violation(*v)
+    _STATE['seqs'] = sequences()
+    nseq = 0
+    for part in ctx.pmap(_work_seq, range(len(_STATE['seqs'])), fresh=True):
+        nseq += 1
+        for k, v in part['cover'].items():
+            tot[k] = tot.get(k, 0) + v
+        for v in part['violations']:
+            ctx.violation(*v)
     ctx.cover(
         evaluations=tot['evaluations'], states=tot['states'], transitions=tot['evaluations'],
         traces_validated_against_impl=tot['evaluations'], distinct_nontrivial=tot['nontrivial'], objects=len(objs) + len(recs),
         universe=counts, distinct_inferred_hints_lower_bound=nh, recursion_warnings_seen=tot['recursion_warnings'],
-        draws=_STATE['res'], exhaustive=True,
+        draws=_STATE['res'], exhaustive=True, ordered_pairs_in_one_process=nseq,
         samples=[O.osrc(objs[len(SCALARS) + 700]), O.osrc(objs[-40]), O.osrc(recs[3])],
         rule=('E1: every object term of the universe (scalars and stdlib odds and ends; 14 single-axis carriers x every item tuple of '
               'length <= 3 over 4 atoms; 8 mapping carriers x pair lists; dict views; depth 2 = every carrier over all tuples of <= 2 '
               '(3 thorough) representative depth-1 containers, i.e. heterogeneous siblings in both orders; depth-3 representatives; 16 '
               'self-referential builtin and user-defined containers) x {default O(n) inference, O(1) inference}; '
-              'is_bearable(obj, infer_hint(obj)) for every draw residue under the default inference.  states = objects; '
+              'is_bearable(obj, infer_hint(obj)) for every draw residue under the default inference; plus every ordered pair over 17 objects chosen to collide '
+              '(classes sharing module and name, one carrier with other item types) inferred one after the other in a fresh process.  states = objects; '
               'distinct_nontrivial = containers with >= 2 items.'),
     )
     ctx.assume('acceptance is asserted for the default (linear-time) inference only; O(1)-configured inference is only required to return')
